@@ -237,6 +237,33 @@ def wl_bases(ctx, rng, i):
     all_routes = ["parse-text", "parse-dict", "constructor"]
     judge(ctx, ver, t, o, "none (valid base)", "", all_routes, is_base=True)
     ctx.see("base types", "%s:%s" % (ver, bname))
+    # identifiers this process has accepted before, under ANOTHER reading: as the id of an object of another type; in a 2.1 object
+    # with a UUID of another version, now in 2.0 content.  What made them acceptable there does not here
+    seen = ctx.state.setdefault("accepted_ids", [])
+    if isinstance(o.get("id"), str) and t != "bundle":
+        import copy as _copy
+        for v2, t2, id2 in rng.sample(seen, min(3, len(seen))):
+            if t2 != t:
+                judge(ctx, ver, t, dict(_copy.deepcopy(o), id=id2), "top|id|identifier-accepted-before-for-another-type", "id", ["parse-text", "constructor"])
+                ctx.count("identifiers_met_again_under_another_reading")
+        if ver == "2.0" and t in M.model("2.1").types and M.model("2.1").types[t].get("cat") != "sco":
+            u1 = t + "--" + "d83fce45-ef58-1c6c-a3f4-" + "%012x" % rng.randrange(16 ** 12)
+            try:
+                import stix2
+                g21 = ObjGen(rng, "2.1", hostile=False)
+                o21 = g21.make(t, "min", granular=False)
+                o21["id"] = u1
+                with warnings.catch_warnings():
+                    warnings.simplefilter("ignore")
+                    stix2.parse(json.dumps(o21), version="2.1")          # valid 2.1 content: a version-1 UUID is acceptable there
+                ctx.count("non_v4_identifiers_accepted_as_2.1_first")
+            except Exception:
+                pass
+            judge(ctx, ver, t, dict(_copy.deepcopy(o), id=u1), "top|id|uuid:version-1-accepted-as-2.1-before", "id", ["parse-text", "constructor"])
+            ctx.count("identifiers_met_again_under_another_reading")
+        seen.append((ver, t, o["id"]))
+        if len(seen) > 40:
+            del seen[0]
     n = 0
     two = rng if ctx.tier == "thorough" else None
     for label, where, oo in corrupt.corruptions(ver, o, two):
@@ -454,6 +481,12 @@ def wl_interop_ids(ctx, rng, i):
                           {"version": ver, "type": t, "route": route, "fault": name, "input": oo, "output": out})
         else:
             ctx.count("normalised_or_harmless")
+
+
+def setup(ctx):
+    # history: registrations the library refuses (taken names, in either 2.1 category) come before the content is judged
+    from ..gen import custom as gcustom
+    ctx.count("refused_registrations_before_the_workload", gcustom.refused_registrations())
 
 
 WORKLOADS = [
